@@ -215,7 +215,20 @@ func (w *Worker) storeInto(p *Value, v Value) {
 	}
 }
 
-func (w *Worker) load(ptr Ptr) Value {
+func (w *Worker) load(ptr Ptr) (res Value) {
+	if ptr.idx != nil || ptr.alts != nil {
+		if w.inMerge == 0 {
+			// values that cannot be merged (slices, maps, ...): fork on the pointer instead
+			defer func() {
+				if r := recover(); r != nil {
+					if _, ok := r.(mergeAbort); !ok {
+						panic(r)
+					}
+					res = w.loadForked(ptr)
+				}
+			}()
+		}
+	}
 	if ptr.idx != nil {
 		return w.loadIndexed(ptr)
 	}
@@ -236,6 +249,19 @@ func (w *Worker) load(ptr Ptr) Value {
 		w.panicNow("nil pointer dereference (load)")
 	}
 	return copyVal(*ptr.p)
+}
+
+func (w *Worker) loadForked(ptr Ptr) Value {
+	if ptr.idx != nil {
+		k := int(w.concretize(ptr.idx, "symbolic pointer"))
+		return copyVal(ptr.cells[k])
+	}
+	for i, a := range ptr.alts {
+		if i == len(ptr.alts)-1 || w.decide(a.g) {
+			return w.load(a.p)
+		}
+	}
+	panic(pathEnd{kind: "infeasible"})
 }
 
 // loadIndexed reads cells[idx]; consecutive candidates holding the same term share one range condition.
